@@ -358,6 +358,47 @@ func TestC35(t *testing.T) {
 		}
 		checkCount("merged", c35Clone(L), union)
 		checkCount("single", U, union)
+		// the way the server folds sketches (tsi1 FileSet / tsdb.Store): a fresh accumulator, the
+		// per-file / per-shard sketches merged into it as they are (no copies), the same leaves used
+		// again in a second fold. The second fold must still be the sketch of its own union.
+		{
+			before := make([][]byte, len(leaves))
+			for i, h := range leaves {
+				before[i] = c35Registers(c.P, h)
+			}
+			acc1, _ := hll.NewPlus(c.P)
+			order := rg.Perm(len(leaves))
+			for _, i := range order {
+				acc1.Merge(leaves[i])
+			}
+			// second fold over a sub-list that starts with the leaf the first fold started with
+			sub := []int{order[0]}
+			for _, i := range order[1:] {
+				if rg.Bool() {
+					sub = append(sub, i)
+				}
+			}
+			acc2, _ := hll.NewPlus(c.P)
+			want2, _ := hll.NewPlus(c.P)
+			for _, i := range sub {
+				acc2.Merge(leaves[i])
+				l, _ := c35Build(c, c.Leaves[i])
+				want2.Merge(l)
+			}
+			r.Event("server_style_folds_compared", 2)
+			if d := c35RegDiff(lb, c35Bytes(acc1)); d != "" {
+				r.Violation("merge_differs_from_union_sketch", feat("shape", "fresh_accumulator_fold"), map[string]any{"case": c, "order": order, "diff": d})
+			} else if d := c35RegDiff(c35Bytes(want2), c35Bytes(acc2)); d != "" {
+				changed := []int{}
+				for i, h := range leaves {
+					if c35RegDiff(before[i], c35Registers(c.P, h)) != "" {
+						changed = append(changed, i)
+					}
+				}
+				r.Violation("merge_result_depends_on_earlier_merges", feat("shape", "fresh_accumulator_fold", "argument_modified", fmt.Sprint(len(changed) > 0)), map[string]any{
+					"case": c, "first_fold_order": order, "second_fold": sub, "diff": "second fold vs the same fold over freshly built leaves: " + d, "leaves_whose_registers_changed": changed})
+			}
+		}
 		c35Marshal(r, c, feat, "merged", L, leaves[0], reprs)
 	}
 	c35RankOverflow(r)
